@@ -475,9 +475,14 @@ func (c *Ctx) StrLit(s string) *Term {
 		return t
 	}
 	id := len(c.strLits)
-	t := &Term{fmt.Sprintf("(strlit %d)", id), SStr}
+	t := &Term{fmt.Sprintf("strlit!%d", id), SStr}
+	c.cmds = append(c.cmds, fmt.Sprintf("(declare-const %s Str) ; %q", t.S, trunc(s, 40)))
+	c.cmds = append(c.cmds, fmt.Sprintf("(assert (= (strlen %s) %d))", t.S, len(s)))
+	// distinct from every earlier literal
+	for _, o := range c.strLits {
+		c.cmds = append(c.cmds, fmt.Sprintf("(assert (not (= %s %s)))", t.S, o.S))
+	}
 	c.strLits[s] = t
-	c.cmds = append(c.cmds, fmt.Sprintf("(assert (= (strlen %s) %d)) ; %q", t.S, len(s), trunc(s, 40)))
 	return t
 }
 
@@ -517,9 +522,7 @@ func (c *Ctx) Query(mark int, hyps []*Term, goal *Term, getValues []string) stri
 	if goal != nil && (strings.Contains(goal.S, "(strlen ") || strings.Contains(goal.S, "(strlit ") || strings.Contains(goal.S, "(strcat ")) {
 		usesStr = true
 	}
-	if usesStr {
-		b.WriteString(strAxioms)
-	}
+	_ = usesStr
 	b.WriteString(bs)
 	for _, h := range hyps {
 		if h.S != "true" {
